@@ -253,17 +253,31 @@ func antiEntropy(c *lib.Case, s *netsim.Sim, mon *monitor, p Params) {
 	r := c.Rng
 	// whatever is still in flight is delivered reliably too (the network drains)
 	drain := func(phase string) bool {
-		budget := 200 * (len(s.Created) + p.N*p.N + 10)
+		budget := 40 * (len(s.Created) + p.N*p.N + 10)
+		total := budget
+		defer func() {
+			used := 100 * (total - budget) / total
+			switch {
+			case used <= 10:
+				c.Count("drain.budget_used_le_10pct", 1)
+			case used <= 50:
+				c.Count("drain.budget_used_le_50pct", 1)
+			default:
+				c.Count("drain.budget_used_gt_50pct", 1)
+			}
+		}()
 		for len(s.InFlight) > 0 {
-			if budget == 0 {
+			if budget == 0 || len(s.InFlight) > 60*p.N*p.N {
 				mon.problem("no-quiescence", "network did not drain within the delivery bound during reliable anti-entropy ("+phase+")",
 					map[string]any{"in_flight": len(s.InFlight)})
 				return false
 			}
 			budget--
 			s.Step++
-			s.Deliver(r.Intn(len(s.InFlight)), -1, false)
-			mon.afterStep()
+			pos := r.Intn(len(s.InFlight))
+			to := s.InFlight[pos].To
+			s.Deliver(pos, -1, false)
+			mon.afterStep(to)
 			if len(mon.problems) > 0 {
 				return false
 			}
@@ -297,8 +311,10 @@ func antiEntropy(c *lib.Case, s *netsim.Sim, mon *monitor, p Params) {
 			s.Events = append(s.Events, netsim.Event{Step: s.Step, Kind: "sync-with-peer", Actor: pr[0], Detail: fmt.Sprint(pr[1])})
 			// interleave deliveries with further exchanges
 			for k := r.Intn(3); k > 0 && len(s.InFlight) > 0; k-- {
-				s.Deliver(r.Intn(len(s.InFlight)), -1, false)
-				mon.afterStep()
+				pos := r.Intn(len(s.InFlight))
+				to := s.InFlight[pos].To
+				s.Deliver(pos, -1, false)
+				mon.afterStep(to)
 			}
 		}
 		if !drain(fmt.Sprintf("round %d", round)) {
@@ -381,9 +397,12 @@ func (m *monitor) checkCreated(i int, id string) {
 }
 
 // afterStep: monitors (a)-(c) on every replica holding the tree.
-func (m *monitor) afterStep() {
+func (m *monitor) afterStep(touched ...int) {
 	for _, r := range m.s.Replicas {
 		if !r.HasTree {
+			continue
+		}
+		if len(touched) > 0 && !contains(touched, r.Idx) {
 			continue
 		}
 		m.c.Count("monitor.replica_states_checked", 1)
@@ -468,6 +487,15 @@ func (m *monitor) afterStep() {
 				map[string]any{"replica": r.Idx, "changes": bad})
 		}
 	}
+}
+
+func contains(xs []int, x int) bool {
+	for _, v := range xs {
+		if v == x {
+			return true
+		}
+	}
+	return false
 }
 
 func eq(a, b []string) bool { return strings.Join(a, ",") == strings.Join(b, ",") }
